@@ -25,6 +25,7 @@ mod c12;
 mod c15;
 mod c19;
 mod checks;
+mod e2;
 mod frontends;
 mod harvest;
 mod pool;
@@ -108,6 +109,9 @@ fn main() {
             for l in g.lint(&doc) {
                 println!("lint: {}", sweep::lint_json(&l));
             }
+        }
+        "c05-menu" => {
+            println!("{}", e2::menu_output());
         }
         "sizes" => {
             let job = args.get(2).cloned().unwrap_or_default();
